@@ -917,6 +917,29 @@ func doCall(c *wire.Case, call *wire.Call, slots []*progSlot, shared bool) {
 		}
 		out, _ := os.ReadFile(path + ".vored")
 		call.Digest = "m:" + digestMatches(ms) + " o:" + hashStr(string(out))
+	case "runfiles-names":
+		// the shared (find) program over the NAME of the call's own file (RunFiles' third argument), forty times in a
+		// row: a call that searches names runs next to calls that rewrite files
+		v := slots[call.Prog].v
+		path := callOwnFiles[call.Own]
+		if v == nil || path == "" {
+			call.Err = "not compiled / no file"
+			call.Digest = "err:nc"
+			return
+		}
+		ok := true
+		for k := 0; k < 40; k++ {
+			ms := v.RunFiles([]string{path}, engine.NEW, true)
+			if len(ms) == 0 {
+				ok = false
+			}
+			for _, m := range ms {
+				if m.Offset.Start < 0 || m.Offset.End > len(path) || m.Value != path[m.Offset.Start:m.Offset.End] {
+					ok = false
+				}
+			}
+		}
+		call.Digest = fmt.Sprintf("names:%v", ok)
 	case "run+json":
 		// run the shared program and render the result list both ways
 		v := slots[call.Prog].v
@@ -941,7 +964,7 @@ func prepareCallFiles(c *wire.Case) func() {
 	callOwnFiles = map[int]string{}
 	need := false
 	for _, cl := range c.Calls {
-		if cl.Kind == "runfiles" || cl.Kind == "runfiles-new" {
+		if cl.Kind == "runfiles" || cl.Kind == "runfiles-new" || cl.Kind == "runfiles-names" {
 			need = true
 		}
 	}
@@ -961,7 +984,7 @@ func prepareCallFiles(c *wire.Case) func() {
 		}
 	}
 	for _, cl := range c.Calls {
-		if cl.Kind == "runfiles-new" && cl.Text < len(c.Texts) {
+		if (cl.Kind == "runfiles-new" || cl.Kind == "runfiles-names") && cl.Text < len(c.Texts) {
 			p := filepath.Join(dir, fmt.Sprintf("own%d.txt", cl.Own))
 			if os.WriteFile(p, c.Texts[cl.Text], 0o644) == nil {
 				callOwnFiles[cl.Own] = p
